@@ -64,6 +64,30 @@ def r01_1(ctx):
         sers = [(n, bb, t) for n, bb, t in sup.calls() if (fn_of(t) or {}).get("trait") == "serde::Serializer" and fn_of(t)["name"].startswith("serialize_")]
         names = [fn_of(t)["name"] for _, _, t in sers]
         ok = names == ["serialize_" + x]
+        if not ok and len(sers) > 1:
+            # the scalar travels through an intermediate value (`enum Scalar { Int(i128), .. }`) and leaves through
+            # a shared dispatch: only the serializer calls that are feasible for this visit method count
+            from model import PathSens
+
+            reach = PathSens(sup, payloads=True).reach()
+            sers = [z for z in sers if z[0] in reach]
+            names = sorted({fn_of(t)["name"] for _, _, t in sers})
+            ok = names == ["serialize_" + x]
+            if not ok and x in _INT_BITS and names and all(nm[len("serialize_"):] in _INT_BITS for nm in names):
+                # an integer may leave through wider integer methods, as long as the methods of at most 64 bits (which
+                # every target encodes alike) cover the whole range of the type it arrived in; 128-bit arrivals need
+                # a 128-bit way out
+                def rng(tn):
+                    sg, bits = _INT_BITS[tn]
+                    return (-(1 << (bits - 1)), (1 << (bits - 1)) - 1) if sg else (0, (1 << bits) - 1)
+
+                lo, hi = rng(x)
+                outs = [rng(nm[len("serialize_"):]) for nm in names if _INT_BITS[nm[len("serialize_"):]][1] <= 64 or _INT_BITS[x][1] > 64]
+                covered_lo = any(a <= lo for a, _ in outs)
+                covered_hi = any(z_ >= hi for _, z_ in outs)
+                if covered_lo and covered_hi:
+                    ctx.ob(f"{name}:forwards-to-same-type", True, site(b), f"integer leaves through {names}: the methods of at most 64 bits cover every {x} value (lossless widening)")
+                    continue
         ctx.ob(f"{name}:forwards-to-same-type", ok, site(b), f"serializer calls: {names}")
         if len(sers) != 1:
             continue
